@@ -18,7 +18,6 @@ from fractions import Fraction
 import dendropy
 from dendropy.calculate import treemeasure
 from dendropy.calculate.phylogeneticdistance import PhylogeneticDistanceMatrix
-from dendropy.utility.error import NullAssemblageException
 
 from mc import ref, build
 from mc import universe as U
@@ -1056,8 +1055,9 @@ def run_dist(chunk, ctx):
                         ctx.count("treemeasure_trees")
                         ctx.count("treemeasure_queries", q)
             ctx.count("drawings")
-        ctx.sample({"layer": "distances", "tree": ref.to_newick(ref.mk(shape, lens=[[1, 2, 3][i % 3] for i in range(nnodes(shape))])),
-                    "pairs": n * n, "drawings": len(drawings(shape, n, b))}, 1)
+        if n >= 3:
+            ctx.sample({"layer": "distances", "tree": ref.to_newick(ref.mk(shape, lens=[[1, 2, 3][i % 3] for i in range(nnodes(shape))])),
+                        "pairs": n * n, "drawings": len(drawings(shape, n, b))}, 1)
     return None
 
 
@@ -1094,7 +1094,8 @@ def run_mrca(chunk, ctx):
                 ctx.case(("mrca_start", d), nt, n=q)
                 ctx.count("mrca_start_node_trees")
                 ctx.count("mrca_queries", q)
-        ctx.sample({"layer": "Tree.mrca", "tree": ref.to_newick(ref.mk(shape), False), "subsets": 2 ** n - 1, "routes": list(ROUTES)}, 1)
+        if n >= 4:
+            ctx.sample({"layer": "Tree.mrca", "tree": ref.to_newick(ref.mk(shape), False), "subsets": 2 ** n - 1, "routes": list(ROUTES)}, 1)
     return None
 
 
